@@ -196,3 +196,150 @@ def measurement_model(seed, n_per):
         if tot != ref:
             fails.append({'edge': 'graph', 'law': 'graph chi2 is not the sum of the edge chi2 in list order', 'total': float(tot), 'sum': float(ref)})
     return evals, fails
+
+
+# ------------------------------------------------------------------------------------------------
+# C07 / C08 / C05: random well-posed graphs on the implementation
+def rand_unit_quat(rng, near180=False):
+    if near180:
+        ax = np.array([rng.gauss(0, 1) for _ in range(3)]); ax /= np.linalg.norm(ax)
+        ang = math.pi - rng.uniform(0, 1e-3)
+        return list(ax * math.sin(ang / 2)) + [math.cos(ang / 2)]
+    q = np.array([rng.gauss(0, 1) for _ in range(4)]); q /= np.linalg.norm(q)
+    return list(q)
+
+
+def build_graph(rng, kind, nv=None, landmarks=True, noise=0.02, pert=0.05, info_cross=True):
+    """random consistent-ish graph: chain of poses with loop closures (+ landmarks with offsets).
+    kind in {'SE2','SE3','R2','R3'}; returns (graph, truth poses list)"""
+    from graphslam.graph import Graph
+    from graphslam.vertex import Vertex
+    from graphslam.edge.edge_odometry import EdgeOdometry
+    from graphslam.edge.edge_landmark import EdgeLandmark
+    from graphslam.pose.se2 import PoseSE2
+    from graphslam.pose.se3 import PoseSE3
+    from graphslam.pose.r2 import PoseR2
+    from graphslam.pose.r3 import PoseR3
+    nv = nv or rng.randint(3, 8)
+    P = {'SE2': PoseSE2, 'SE3': PoseSE3, 'R2': PoseR2, 'R3': PoseR3}[kind]
+    pk = {'SE2': 'R2', 'SE3': 'R3', 'R2': 'R2', 'R3': 'R3'}[kind]
+    PP = {'R2': PoseR2, 'R3': PoseR3}[pk]
+    d = ce.DIM[kind]
+
+    def rand_pose(scale=1.0):
+        if kind == 'SE2':
+            return PoseSE2([rng.gauss(0, scale), rng.gauss(0, scale)], rng.uniform(-math.pi, math.pi))
+        if kind == 'SE3':
+            return PoseSE3([rng.gauss(0, scale) for _ in range(3)], rand_unit_quat(rng))
+        return P([rng.gauss(0, scale) for _ in range(d)])
+
+    def small():
+        if kind == 'SE2':
+            return np.array([rng.gauss(0, noise), rng.gauss(0, noise), rng.gauss(0, noise / 2)])
+        if kind == 'SE3':
+            return np.array([rng.gauss(0, noise) for _ in range(3)] + [rng.gauss(0, noise / 4) for _ in range(3)])
+        return np.array([rng.gauss(0, noise) for _ in range(d)])
+    truth = [rand_pose(3.0)]
+    for i in range(1, nv):
+        truth.append(truth[-1] + rand_pose(1.0) if kind in ('SE2', 'SE3') else P(np.asarray(truth[-1]) + np.array([rng.gauss(0, 1) for _ in range(d)])))
+    verts = [Vertex(i, (truth[i] + small() * (pert / max(noise, 1e-12))) if pert else truth[i].copy()) for i in range(nv)]
+    edges = []
+
+    def info(n):
+        if info_cross:
+            return rand_spd(rng, n, cond=100.0)
+        return np.eye(n)
+    pairs = [(i, i + 1) for i in range(nv - 1)] + [(0, nv - 1)] + [tuple(sorted(rng.sample(range(nv), 2))) for _ in range(rng.randint(0, 2))]
+    for (a, b) in pairs:
+        z = truth[b] - truth[a]
+        if noise:
+            z = z + small()
+        edges.append(EdgeOdometry([a, b], info(d), z))
+    lms = []
+    if landmarks:
+        for j in range(rng.randint(0, 3)):
+            lp = PP([rng.gauss(0, 4) for _ in range(ce.DIM[pk])])
+            lid = nv + j
+            lms.append(lp)
+            verts.append(Vertex(lid, PP(np.asarray(lp) + (np.array([rng.gauss(0, pert) for _ in range(ce.DIM[pk])]) if pert else 0.0))))
+            for a in rng.sample(range(nv), min(nv, rng.randint(2, 3))):
+                if kind == 'SE2':
+                    off = PoseSE2.identity()   # EDGE_SE2_XY semantics; any offset is allowed for the in-memory graph
+                    off = PoseSE2([rng.gauss(0, .3), rng.gauss(0, .3)], rng.uniform(-1, 1))
+                elif kind == 'SE3':
+                    off = PoseSE3([rng.gauss(0, .3) for _ in range(3)], rand_unit_quat(rng))
+                else:
+                    off = P([rng.gauss(0, .3) for _ in range(d)])
+                z = ((truth[a] + off).inverse + lp)
+                if noise:
+                    z = PP(np.asarray(z) + np.array([rng.gauss(0, noise) for _ in range(ce.DIM[pk])]))
+                edges.append(EdgeLandmark([a, lid], info(ce.DIM[pk]), z, offset=off, offset_id=j))
+    return Graph(edges, verts), truth + lms
+
+
+def transform_graph(g, T, kind):
+    """left-compose every pose vertex with T; landmark points get the action of T"""
+    from graphslam.graph import Graph
+    from graphslam.vertex import Vertex
+    g2 = copy.deepcopy(g)
+    for v in g2._vertices:
+        if kind in ('R2', 'R3'):
+            v.pose = type(v.pose)(np.asarray(T) + np.asarray(v.pose))
+        else:
+            v.pose = T + v.pose
+    return Graph(g2._edges, g2._vertices)
+
+
+def frame_independence(seed, n):
+    from graphslam.pose.se2 import PoseSE2
+    from graphslam.pose.se3 import PoseSE3
+    from graphslam.pose.r2 import PoseR2
+    from graphslam.pose.r3 import PoseR3
+    rng = random.Random(seed)
+    fails, evals = [], 0
+    for i in range(n):
+        kind = rng.choice(['SE2', 'SE3', 'SE3', 'R2', 'R3'])
+        g, _ = build_graph(rng, kind)
+        big = rng.random() < 0.3
+        sc = 1e4 if big else 5.0
+        if kind == 'SE2':
+            T = PoseSE2([rng.gauss(0, sc), rng.gauss(0, sc)], rng.choice([rng.uniform(-math.pi, math.pi), math.pi - 1e-4, -math.pi + 1e-4]))
+        elif kind == 'SE3':
+            T = PoseSE3([rng.gauss(0, sc) for _ in range(3)], rand_unit_quat(rng, near180=rng.random() < 0.3))
+        else:
+            T = np.array([rng.gauss(0, sc) for _ in range(ce.DIM[kind])])
+        g2 = transform_graph(g, T, kind)
+        evals += 1
+        c1, c2 = g.calc_chi2(), g2.calc_chi2()
+        tol = 1e-7 * (1 + abs(c1)) * (1e4 if big else 1.0)
+        if not abs(c1 - c2) <= tol:
+            fails.append({'law': 'chi2 changes under a left transform', 'kind': kind, 'seed': seed, 'case': i, 'chi2': c1, 'chi2_T': c2, 'edge': 'graph'})
+            continue
+        iters = rng.randint(1, 5)
+        try:
+            g.optimize(tol=0.0, max_iter=iters, verbose=False)
+            g2.optimize(tol=0.0, max_iter=iters, verbose=False)
+        except Exception as ex:  # noqa
+            fails.append({'law': 'optimize raised %r' % (ex,), 'kind': kind, 'seed': seed, 'case': i, 'edge': 'graph'})
+            continue
+        if not np.isfinite(g.calc_chi2()) or g.calc_chi2() > 1e6 * (1 + c1):
+            continue   # diverged: nothing to compare
+        for v1, v2 in zip(g._vertices, g2._vertices):
+            if kind in ('R2', 'R3'):
+                exp = np.asarray(T) + np.asarray(v1.pose)
+            else:
+                exp = np.asarray(T + v1.pose)
+            got = np.asarray(v2.pose)
+            if len(exp) == 7:   # compare as rotations: q and -q are the same pose
+                if np.dot(exp[3:], got[3:]) < 0:
+                    got = np.concatenate([got[:3], -got[3:]])
+            if len(exp) == 3 and kind == 'SE2' and len(got) == 3:
+                dth = math.remainder(exp[2] - got[2], 2 * math.pi)
+                ok = np.allclose(exp[:2], got[:2], rtol=0, atol=1e-5 * (1 + sc)) and abs(dth) < 1e-6
+            else:
+                ok = np.allclose(exp, got, rtol=0, atol=1e-5 * (1 + sc))
+            if not ok:
+                fails.append({'law': 'trajectory does not commute with the left transform after %d iterations' % iters, 'kind': kind, 'seed': seed, 'case': i,
+                              'expected': exp.tolist(), 'got': got.tolist(), 'edge': 'graph'})
+                break
+    return evals, fails
